@@ -154,4 +154,5 @@ func genExtra() {
 	genC09()
 	genC01()
 	genC08()
+	genC07()
 }
